@@ -29,96 +29,6 @@ type c19Vio struct {
 	detail string
 }
 
-// c19Where says where the queried thing lives, relative to the temps / the permanent database.
-func c19Where(m *vfModel, q string) string {
-	var n int
-
-	switch method := vfMethod(q); method {
-	case "BlockMap", "BlockMapBytes", "SuffrageProofByBlockHeight":
-		if _, err := fmt.Sscanf(q[len(method):], "(%d)", &n); err != nil {
-			return "-"
-		}
-
-		switch {
-		case n > m.top():
-			return "height-above-last-block"
-		case n >= m.merged:
-			return "height-in-temps"
-		case m.merged < len(m.blocks):
-			return "height-in-permanent-below-temps"
-		default:
-			return "height-in-permanent-no-temps"
-		}
-	case "SuffrageProof", "SuffrageProofBytes":
-		if _, err := fmt.Sscanf(q[len(method):], "(%d)", &n); err != nil {
-			return "-"
-		}
-
-		last := -1
-
-		for i, b := range m.blocks {
-			if b.proof != nil {
-				last = b.sufh
-			}
-
-			if b.proof != nil && b.sufh == n {
-				if i >= m.merged {
-					return "suffrage-height-in-temps"
-				}
-
-				return "suffrage-height-in-permanent"
-			}
-		}
-
-		if n > last {
-			return "suffrage-height-above-last"
-		}
-
-		return "suffrage-height-unknown"
-	case "LastSuffrageProofBytes", "LastSuffrageProof":
-		// is the last proof in the newest temp?
-		for i := len(m.blocks) - 1; i >= 0; i-- {
-			if m.blocks[i].proof == nil {
-				continue
-			}
-
-			switch {
-			case i == m.top() && i >= m.merged:
-				return "proof-in-newest-temp"
-			case i >= m.merged:
-				return "proof-in-older-temp"
-			case m.merged < len(m.blocks):
-				return "proof-in-permanent-below-temps"
-			default:
-				return "proof-in-permanent-no-temps"
-			}
-		}
-
-		return "no-proof"
-	}
-
-	return "-"
-}
-
-func c19Class(got string, gotok bool, want string, wantok bool) string {
-	switch {
-	case strings.HasPrefix(got, "error("):
-		return "error"
-	case !gotok:
-		return "part-missing"
-	case !wantok:
-		return "part-unexpected"
-	case want == vfNotFound:
-		return "found-but-not-committed"
-	case got == vfNotFound:
-		return "committed-but-not-found"
-	case strings.HasPrefix(got, "UNKNOWN"), strings.HasPrefix(got, "CORRUPT"):
-		return "unknown-value"
-	default:
-		return "other-committed-value"
-	}
-}
-
 func c19Compare(m *vfModel, got, want vfAnswers) []c19Vio {
 	var vios []c19Vio
 
@@ -130,10 +40,18 @@ func c19Compare(m *vfModel, got, want vfAnswers) []c19Vio {
 			continue
 		}
 
+		// the parts of a *Bytes read are only compared when both sides found it
+		if part := vfPart(q); part == "enchint" || part == "meta" || part == "body" || part == "lastheight" {
+			f := q[:len(q)-len(part)] + "found"
+			if got[f] != want[f] {
+				continue
+			}
+		}
+
 		vios = append(vios, c19Vio{
 			sig: map[string]any{
 				"kind": "read-mismatch", "read": vfMethod(q), "part": vfPart(q),
-				"class": c19Class(g, gok, w, wok), "where": c19Where(m, q),
+				"class": vfClass(g, gok, w, wok), "where": vfWhere(m, q),
 			},
 			detail: fmt.Sprintf("%s = %s, the committed chain [%s] (first %d in the permanent database) says %s",
 				q, vfShow(g, gok), m.ids(), m.merged, vfShow(w, wok)),
